@@ -91,4 +91,9 @@ theorem splitFrame_compose (h : UInt8) (body rest : Bytes) (hb : body.length ≤
   simp only [List.cons_append, List.nil_append, List.append_assoc, splitFrame, this]
   simp
 
+/-- four continuation bytes in front: the reference decoder refuses, whatever follows -/
+theorem dva4_none (b0 b1 b2 b3 : UInt8) (r : Bytes) (h0 : ¬ b0 < 128) (h1 : ¬ b1 < 128) (h2 : ¬ b2 < 128) (h3 : ¬ b3 < 128) :
+    decodeVarint (b0 :: b1 :: b2 :: b3 :: r) = none := by
+  simp [decodeVarint, decodeVarintAux, h0, h1, h2, h3]
+
 end Model
